@@ -86,8 +86,8 @@ type Options struct {
 	Debug      bool     `json:"debug,omitempty"`
 	// RulesHook selects a LinterOptions.OnRulesCreated hook: "tools-first" moves the shellcheck and
 	// pyflakes rules to the front of the list, "tools-only" keeps only them.
-	RulesHook string `json:"rules_hook,omitempty"`
-	WorkingDir string   `json:"working_dir,omitempty"` // LinterOptions.WorkingDir (may differ from the process cwd)
+	RulesHook  string `json:"rules_hook,omitempty"`
+	WorkingDir string `json:"working_dir,omitempty"` // LinterOptions.WorkingDir (may differ from the process cwd)
 }
 
 // World is everything outside the code under test for one run.
@@ -199,6 +199,9 @@ func RunLint(w *World, c *Chooser, o RunOpts) *LintResult {
 		rep = 1
 	}
 	simrt.ResetChannels()
+	if t, ok := w.Tools.(*Tools); ok && t != nil {
+		t.busySeen = false
+	}
 	res.K = kern.Run(cfg, func() {
 		var shared *sharedLinter
 		if o.ReuseLinter {
@@ -360,6 +363,7 @@ type WorldJSON struct {
 	Dirs       []string          `json:"dirs,omitempty"`
 	Disk       map[string]string `json:"disk"`
 	Links      map[string]string `json:"symlinks,omitempty"`
+	Pipes      []string          `json:"named_pipes,omitempty"`
 	Note       string            `json:"note,omitempty"`
 }
 
@@ -370,6 +374,7 @@ func (w *World) Materialise() *WorldJSON {
 	for p, c := range w.Disk.Files {
 		j.Disk[p] = string(c)
 	}
+	j.Pipes = sortedKeys(w.Disk.Pipes)
 	if len(w.Disk.Links) > 0 {
 		j.Links = map[string]string{}
 		for p, t := range w.Disk.Links {
@@ -413,6 +418,9 @@ func (w *World) Hash() uint64 {
 		h.Write([]byte{0})
 		h.Write(w.Disk.Files[p])
 		h.Write([]byte{1})
+	}
+	for _, p := range sortedKeys(w.Disk.Pipes) {
+		fmt.Fprintf(h, "P%s|", p)
 	}
 	for _, p := range sortedKeys(w.Disk.Links) {
 		fmt.Fprintf(h, "L%s>%s|", p, w.Disk.Links[p])
